@@ -36,7 +36,7 @@ FINDINGS = {
            "gapped labels, and an observation is LOST when a shifted label collides "
            "(concatenate(a[0], a[1], a[0]) has labels [0,2] and 2 observations)",
     "F9d": "integer indexing of IrregularFunctionalData is a label look-up: a negative or out-of-range integer raises KeyError "
-           "(no wrap, no IndexError), a negative entry in an index array raises TypeError",
+           "(no wrap, no IndexError), a negative or out-of-range entry in an index array raises TypeError",
     "F9e": "MultivariateFunctionalData.normalize with an irregular component returns that component with gapped labels "
            "0,2,4,... (concatenation of the iteration items by the `len + key` rule)",
     "F9f": "iterating (or normalizing) a MultivariateFunctionalData whose FIRST component is irregular raises KeyError(n_obs) "
@@ -307,15 +307,25 @@ def is_multi(fam):
     return isinstance(fam, MultiFam)
 
 
-def families(rng, n, quick):
-    out = [DenseFam(rng, n, grid="nonuniform"), IrregFam(rng, n), BasisFam(rng, n, "fourier"),
-           MultiFam(rng, n, [DenseFam(rng, n, m=7, grid="uniform"), DenseFam(rng, n, m=6, grid="shifted")]),
-           MultiFam(rng, n, [DenseFam(rng, n, m=7, grid="uniform"), IrregFam(rng, n)]),
-           MultiFam(rng, n, [IrregFam(rng, n), DenseFam(rng, n, m=7, grid="uniform")]),
-           MultiFam(rng, n, [IrregFam(rng, n), IrregFam(rng, n, grid="uniform-dyadic")])]
+def families(n, quick):
+    """Every family draws from its OWN generator (seed, 13, n_obs, family number), so that a replay can
+    rebuild one family without re-running the others.  Returns [(rng, family)]."""
+    makers = [lambda r: DenseFam(r, n, grid="nonuniform"),
+              lambda r: IrregFam(r, n),
+              lambda r: BasisFam(r, n, "fourier"),
+              lambda r: MultiFam(r, n, [DenseFam(r, n, m=7, grid="uniform"), DenseFam(r, n, m=6, grid="shifted")]),
+              lambda r: MultiFam(r, n, [DenseFam(r, n, m=7, grid="uniform"), IrregFam(r, n)]),
+              lambda r: MultiFam(r, n, [IrregFam(r, n), DenseFam(r, n, m=7, grid="uniform")]),
+              lambda r: MultiFam(r, n, [IrregFam(r, n), IrregFam(r, n, grid="uniform-dyadic")])]
     if not quick:
-        out += [Dense2DFam(rng, n), DenseFam(rng, n, grid="doy"), IrregFam(rng, n, grid="neg"),
-                BasisFam(rng, n, "bsplines")]
+        makers += [lambda r: Dense2DFam(r, n), lambda r: DenseFam(r, n, grid="doy"),
+                   lambda r: IrregFam(r, n, grid="neg"), lambda r: BasisFam(r, n, "bsplines")]
+    out = []
+    for k, mk in enumerate(makers):
+        r = np.random.default_rng([C.seed(), 13, n, k])
+        fam = mk(r)
+        fam.number = k
+        out.append((r, fam))
     return out
 
 
@@ -508,10 +518,6 @@ class Ctx:
                 return res_t[ref[1]]
             return res_b[ref[1]][ref[2]]
         return get
-
-
-def ds_of(fam, ident):
-    return ident
 
 
 def impl_res_lit(fam, oc, ident):
@@ -906,15 +912,14 @@ def pyindex_validation_finish(rep, box):
 # ---------------------------------------------------------------- entry
 def run(rep, props, replay=None):
     quick = C.tier() == "quick"
-    rng = np.random.default_rng([C.seed(), 13])
     if replay is not None:
-        return replay_case(rep, replay)
+        return replay_case(rep, replay, quick)
     import time
     t0 = time.time()
     box = pyindex_validation_start()
     ctx = Ctx(rep)
     for n in range(1, 7):
-        for fam in families(rng, n, quick):
+        for rng, fam in families(n, quick):
             check_family(ctx, fam, rng, quick, budget=(10 if quick else 10 ** 6))
     t1 = time.time()
     pyindex_validation_finish(rep, box)
@@ -949,10 +954,30 @@ def judge(ctx):
                       {**case, "agrees_correct_model": ok, "agrees_defect_model": agrees_def})
 
 
-def replay_case(rep, rp):
-    print("replay: C13 cases are regenerated deterministically from VERIF_SEED; re-run ./check C13 "
-          f"(case: {rp.get('family')} n_obs={rp.get('n_obs')} {rp.get('op')} {rp.get('index', rp.get('pieces', ''))})")
-    rep.case(("replay",), sample={"replay": rp.get("what")})
+def replay_case(rep, rp, quick):
+    """Re-run the family (dataset kind, n_obs) the stored case belongs to — same tier and seed regenerate the same
+    dataset and the same indices — and report what is found there; the stored case is among them."""
+    if rp.get("which") in ("slice", "int"):
+        box = pyindex_validation_start()
+        pyindex_validation_finish(rep, box)
+        return
+    if "family" not in rp or "n_obs" not in rp:
+        print("replay: this file does not describe a dataset case; re-run ./check C13")
+        rep.case(("replay",), sample={"replay": rp.get("what")})
+        return
+    ctx = Ctx(rep)
+    found = False
+    for tier_quick in ([quick] if quick else [False, True]):
+        for rng, fam in families(int(rp["n_obs"]), tier_quick):
+            if fam.kind == rp["family"]:
+                check_family(ctx, fam, rng, tier_quick, budget=(10 if tier_quick else 10 ** 6))
+                found = True
+                break
+        if found:
+            break
+    judge(ctx)
+    print(f"replay: re-ran every case of family {rp['family']} with n_obs={rp['n_obs']} "
+          f"(stored case: {rp.get('op')} {rp.get('index', rp.get('pieces', rp.get('subset', '')))})")
 
 
 RULE = ("dense / irregular / basis / multivariate (dense+dense, dense+irregular, irregular+dense, irregular+irregular) datasets with "
